@@ -25,6 +25,14 @@ func init() {
 		json.Unmarshal(raw, &cs)
 		return c14After([]string{"%5d|", "%-12.3f|", "%+x|", "%#v|", "%08.2f|", "%*d|", "% d|", "%.7s|"}[cs.First], cs.D)
 	}
+	replayers["C14/after-element"] = func(c *Ctx, raw json.RawMessage) string {
+		var cs struct {
+			Container int
+			D         Directive
+		}
+		json.Unmarshal(raw, &cs)
+		return c14AfterElement(cs.Container, cs.D)
+	}
 	replayers["C14/wrappers"] = func(c *Ctx, raw json.RawMessage) string {
 		var cs struct {
 			D Directive
@@ -176,6 +184,57 @@ func c14After(first string, d Directive) string {
 	return ""
 }
 
+type c14Pair struct {
+	A interface{}
+	F interface{}
+}
+
+var c14Containers = []struct {
+	Name string
+	Mk   func(f interface{}) interface{}
+}{
+	{"[]interface{}{0, F}", func(f interface{}) interface{} { return []interface{}{0, f} }},
+	{"[]interface{}{-1.5, \"s\", F}", func(f interface{}) interface{} { return []interface{}{-1.5, "s", f} }},
+	{"struct{A:0, F}", func(f interface{}) interface{} { return c14Pair{0, f} }},
+	{"struct{A:uint8(200), F}", func(f interface{}) interface{} { return c14Pair{uint8(200), f} }},
+	{"map{a:0, b:F}", func(f interface{}) interface{} { return map[string]interface{}{"a": 0, "b": f} }},
+	{"[]interface{}{nil, true, \"\", F}", func(f interface{}) interface{} { return []interface{}{nil, true, "", f} }},
+	{"[]interface{}{[]byte(\"x\"), 'c', F}", func(f interface{}) interface{} { return []interface{}{[]byte("x"), 'c', f} }},
+}
+
+// c14AfterElement: the state a formatter sees inside a container does not depend on the elements before it.
+func c14AfterElement(ci int, d Directive) string {
+	if d.Verb == 'T' || d.Verb == 'p' {
+		return ""
+	}
+	f, stars := d.Format()
+	for name, mk := range map[string]func(st *fstate) interface{}{
+		"Formatter":     func(st *fstate) interface{} { return recFormatter{st} },
+		"SafeFormatter": func(st *fstate) interface{} { return recSafeFormatter{st} },
+	} {
+		for _, pn := range []string{"fmt", "redact"} {
+			if pn == "fmt" && name == "SafeFormatter" {
+				continue
+			}
+			run := func(arg interface{}) {
+				args := append(append([]interface{}{}, stars...), arg)
+				if pn == "redact" {
+					redact.Sprintf(f, args...)
+				} else {
+					fmt.Sprintf(f, args...)
+				}
+			}
+			var alone, inside fstate
+			run([]interface{}{mk(&alone)})
+			run(c14Containers[ci].Mk(mk(&inside)))
+			if alone.Called != inside.Called || (alone.Called && (alone.key() != inside.key() || alone.Fmt != inside.Fmt)) {
+				return fmt.Sprintf("%s/%s: directive %s: formatter alone in a slice sees state %s (MakeFormat=%q), after other elements in %s it sees %s (MakeFormat=%q)", pn, name, d, alone.key(), alone.Fmt, c14Containers[ci].Name, inside.key(), inside.Fmt)
+			}
+		}
+	}
+	return ""
+}
+
 type fmtStringer struct{ out *string }
 
 func (r fmtStringer) Format(s fmt.State, verb rune) { *r.out = fmt.FormatString(s, verb) }
@@ -253,6 +312,17 @@ func checkC14(c *Ctx) {
 			w.Eval()
 			if dt := c14After(firsts[fi], d); dt != "" {
 				w.Fail("after-directive", map[string]interface{}{"First": fi, "D": d}, dt)
+			}
+		}
+		w.Seen(uint64(i))
+	})
+	// ... nor on the elements that precede it inside the same operand
+	c.Section("C14/after-element", map[string]interface{}{"directives": sp.Size(), "containers": len(c14Containers), "printers": "fmt, redact (Formatter and SafeFormatter entry)"}, sp.Size(), func(i int, w *Worker) {
+		d := sp.Get(i)
+		for ci := range c14Containers {
+			w.Eval()
+			if dt := c14AfterElement(ci, d); dt != "" {
+				w.Fail("after-element", map[string]interface{}{"Container": ci, "D": d}, dt)
 			}
 		}
 		w.Seen(uint64(i))
